@@ -126,6 +126,10 @@ class SymNet:
                     for sub, b in G.items():
                         if sub[i] == 1:
                             self.family_constraints.append(z3.Implies(sel[i], z3.Not(b)))
+        self._build_atoms()
+
+    def _build_atoms(self):
+        n, tag = self.n, self.tag
         self._C = {}
         self._T = {}
         self._reach = {}
@@ -140,6 +144,24 @@ class SymNet:
             a = z3.Bool(f"{tag}T_{self.sstr(S)}")
             self.defs.append(a == z3.And([self._C[v, S[v], S] for v in range(n) if S[v] is not None]))
             self._T[S] = a
+
+    @classmethod
+    def view(cls, base, fixed, tag):
+        """the network obtained from `base` by replacing the update functions of the variables in `fixed`
+        (dict index -> 0/1) by constants; shares the symbolic bits of `base`, has its own definitional atoms"""
+        o = cls.__new__(cls)
+        o.n, o.names, o.states, o.subspaces = base.n, list(base.names), base.states, base.subspaces
+        o.tag = tag
+        o.defs, o.bits, o.family_constraints = [], base.bits, []
+        o.wiring = base.wiring
+        o.F = {}
+        for v in range(o.n):
+            if v in fixed:
+                o.F[v] = {x: (_ZTRUE if fixed[v] else _ZFALSE) for x in o.states}
+            else:
+                o.F[v] = base.F[v]
+        o._build_atoms()
+        return o
 
     # ---------------------------------------------------------------- basics
     def sstr(self, S):
@@ -194,7 +216,7 @@ class SymNet:
     def trap_rel(self, M, base, V=None):
         """M (refining base) is a trap space of the network restricted to `base`
         (only variables not fixed in base, and inside V if given, are constrained)."""
-        cs = [self._C[v, M[v], M] for v in range(self.n)
+        cs = [self.const_on(v, M[v], M) for v in range(self.n)
               if M[v] is not None and base[v] is None and (V is None or v in V)]
         return self.And(cs)
 
@@ -213,14 +235,14 @@ class SymNet:
         if not refines(R, S):
             f = self.FALSE
         else:
-            closed = [z3.Not(self._C[v, b, R]) for v in range(self.n) if R[v] is None for b in (0, 1)]
+            closed = [z3.Not(self.const_on(v, b, R)) for v in range(self.n) if R[v] is None for b in (0, 1)]
             new = [v for v in range(self.n) if S[v] is None and R[v] is not None]
             alts = []
             for perm in itertools.permutations(new):
                 cur = list(S)
                 cs = []
                 for v in perm:
-                    cs.append(self._C[v, R[v], tuple(cur)])
+                    cs.append(self.const_on(v, R[v], tuple(cur)))
                     cur[v] = R[v]
                 alts.append(self.And(cs))
             f = self.And(closed + [self.Or(alts)]) if new else self.And(closed)
@@ -376,6 +398,8 @@ class SymNet:
         """definitional equalities created lazily (reachability atoms); the explorer adds them to its solver"""
         d = getattr(self, "pending_defs", [])
         self.pending_defs = []
+        for w in getattr(self, "views", []):
+            d = d + w.take_pending_defs()
         return d
 
     def reach(self, x, y, override=None):
@@ -408,6 +432,235 @@ class SymNet:
         return [self.F[v][x] == bool(tables[v][i]) for v in range(self.n) for i, x in enumerate(self.states)]
 
 
+def view_transformed(base, perm, flips, names, tag):
+    """the same network written down differently: new variable j is old variable perm[j], stored negated if
+    flips[j]; `names` are the new names in the new declaration order.  Shares the bits of `base`."""
+    n = base.n
+    o = SymNet.__new__(SymNet)
+    o.n, o.names = n, list(names)
+    o.states, o.subspaces = base.states, base.subspaces
+    o.tag = tag
+    o.defs, o.bits, o.family_constraints = [], base.bits, []
+    o.wiring = {j: tuple(range(n)) for j in range(n)}
+    o.F = {}
+    for j in range(n):
+        row = {}
+        for y in o.states:
+            x = [0] * n
+            for jj in range(n):
+                x[perm[jj]] = y[jj] ^ flips[jj]
+            f = base.F[perm[j]][tuple(x)]
+            row[y] = fNot(f) if flips[j] else f
+        o.F[j] = row
+    o._build_atoms()
+    o.perm, o.flips = list(perm), list(flips)
+    return o
+
+
+def map_back(S2, perm, flips):
+    """a subspace/state of the transformed network -> the original network's coordinates"""
+    n = len(perm)
+    S = [None] * n
+    for j in range(n):
+        if S2[j] is not None:
+            S[perm[j]] = S2[j] ^ flips[j]
+    return tuple(S)
+
+
+class ProductNet(SymNet):
+    """disjoint union of independent symbolic components (variables concatenated in order).  Definitions are
+    composed from the components' atoms (trap spaces, percolation, reachability and attractors of a disjoint
+    union are products), so 5-8 variable modular networks stay cheap."""
+
+    def __init__(self, comps):
+        self.comps = comps
+        self.n = sum(c.n for c in comps)
+        self.names = list(NAMES[:self.n])
+        self.off = []
+        o = 0
+        for c in comps:
+            self.off.append(o)
+            c.names = self.names[o:o + c.n]
+            o += c.n
+        self.comp_of = {}
+        for i, c in enumerate(comps):
+            for vl in range(c.n):
+                self.comp_of[self.off[i] + vl] = (i, vl)
+        self.states = list(itertools.product((0, 1), repeat=self.n))
+        self.subspaces = list(itertools.product((0, 1, None), repeat=self.n))
+        self.tag = "P"
+        self.defs = [d for c in comps for d in c.defs]
+        self.bits = [b for c in comps for b in c.bits]
+        self.family_constraints = [f for c in comps for f in c.family_constraints]
+        self.wiring = {v: tuple(self.off[i] + d for d in comps[i].wiring[vl]) for v, (i, vl) in self.comp_of.items()}
+        self._cache = {}
+        self._reach = {}
+
+        class _Fv(dict):
+            pass
+        net = self
+
+        class FRow:
+            def __init__(self, v):
+                self.i, self.vl = net.comp_of[v]
+
+            def __getitem__(self, x):
+                return net.comps[self.i].F[self.vl][net.part(x, self.i)]
+        self.F = {v: FRow(v) for v in range(self.n)}
+
+    def part(self, S, i):
+        return tuple(S[self.off[i]:self.off[i] + self.comps[i].n])
+
+    def parts(self, S):
+        return [self.part(S, i) for i in range(len(self.comps))]
+
+    def join(self, parts):
+        out = []
+        for p in parts:
+            out += list(p)
+        return tuple(out)
+
+    def const_on(self, v, b, S):
+        i, vl = self.comp_of[v]
+        return self.comps[i].const_on(vl, b, self.part(S, i))
+
+    def trap(self, S):
+        return self.And([c.trap(self.part(S, i)) for i, c in enumerate(self.comps)])
+
+    def is_source(self, v, S):
+        i, vl = self.comp_of[v]
+        return self.comps[i].is_source(vl, self.part(S, i))
+
+    def perc_eq(self, S, R):
+        return self.And([c.perc_eq(self.part(S, i), self.part(R, i)) for i, c in enumerate(self.comps)])
+
+    def reg(self, u, v, S):
+        (i, ul), (j, vl) = self.comp_of[u], self.comp_of[v]
+        if i != j:
+            return self.FALSE, self.FALSE
+        return self.comps[i].reg(ul, vl, self.part(S, i))
+
+    def count_true(self, v, S, negate=False):
+        i, vl = self.comp_of[v]
+        e = self.comps[i].count_true(vl, self.part(S, i), negate)
+        other = sum(1 for k in range(self.n) if S[k] is None and self.comp_of[k][0] != i)
+        return e * (2 ** other)
+
+    def reach(self, x, y, override=None):
+        ov = override or (None,) * self.n
+        return self.And([c.reach(self.part(x, i), self.part(y, i), self.part(ov, i) if any(o is not None for o in self.part(ov, i)) else None)
+                         for i, c in enumerate(self.comps)])
+
+    def attr(self, x, override=None):
+        ov = override or (None,) * self.n
+        return self.And([c.attr(self.part(x, i), self.part(ov, i) if any(o is not None for o in self.part(ov, i)) else None)
+                         for i, c in enumerate(self.comps)])
+
+    def take_pending_defs(self):
+        out = []
+        for c in self.comps:
+            out += c.take_pending_defs()
+        return out
+
+    def is_mintrap(self, M):
+        from . import specs
+        return self.And([specs.is_mintrap(c, self.part(M, i)) for i, c in enumerate(self.comps)])
+
+    def has_motif_avoidant(self):
+        from . import specs
+        return self.Or([specs.has_motif_avoidant(c) for c in self.comps])
+
+    # ---- compositional observation of the trap-space solver (the generic candidate enumeration is 9^n)
+    def trappist_obs(self, problem, base, ensure, srcs, got):
+        """-> (list of (formula, bool, detail), list of concrete inconsistencies) for an answer list `got`
+        of global subspaces of trappist(problem) on the whole network restricted to base, ensure given"""
+        ens = ensure or (None,) * self.n
+        S = meet(base, ens)
+        obs, bad = [], []
+        if S is None:
+            return obs, ["ensure conflicts with base"]
+        k = len(self.comps)
+        gotp = [self.parts(M) for M in got]
+        Sp = self.parts(S)
+        if problem == "min":
+            proj = [set(g[i] for g in gotp) for i in range(k)]
+            if set(got) != {self.join(t) for t in itertools.product(*proj)} and got:
+                bad.append("minimal trap spaces are not the product of their component projections")
+            for i, c in enumerate(self.comps):
+                spec = c.trappist_spec("min", self.part(base, i), None, self.part(ens, i), (), ())
+                for M, f in spec.items():
+                    obs.append((f, (M in proj[i]) if got else False, (i, M)))
+                if not got:
+                    # no answer at all: some component has none (cannot happen for min); record as inconsistency
+                    bad.append("no minimal trap space")
+            return obs, bad
+        if problem == "max":
+            srcs_i = [tuple(v - self.off[i] for v in srcs if self.comp_of[v][0] == i and ens[v] is None) for i in range(k)]
+            I = [i for i in range(k) if srcs_i[i]]
+            free_i = [[v for v in range(c.n) if self.part(base, i)[v] is None and self.part(ens, i)[v] is None] for i, c in enumerate(self.comps)]
+            if not I:
+                # answers differ from S in exactly one component, where they are a maximal trap space of it
+                for g in gotp:
+                    diff = [i for i in range(k) if g[i] != Sp[i]]
+                    if len(diff) != 1:
+                        bad.append(f"stable motif {got[gotp.index(g)]} restricts {len(diff)} components")
+                for i, c in enumerate(self.comps):
+                    if not free_i[i]:
+                        continue
+                    spec = c.trappist_spec("max", self.part(base, i), None, self.part(ens, i), (), ())
+                    mine = {g[i] for g in gotp if [j for j in range(k) if g[j] != Sp[j]] == [i]}
+                    for M, f in spec.items():
+                        obs.append((f, M in mine, (i, M)))
+                # the other components must be (relative) trap spaces as a whole: true for node spaces
+                return obs, bad
+            # sources present: every component with a free source is restricted simultaneously
+            proj = {i: set(g[i] for g in gotp) for i in I}
+            want = set()
+            for t in itertools.product(*[sorted(proj[i], key=str) for i in I]):
+                parts = list(Sp)
+                for i, m in zip(I, t):
+                    parts[i] = m
+                want.add(self.join(parts))
+            if set(got) != want:
+                bad.append("source-fixing stable motifs are not the product of their component projections")
+            for i in I:
+                c = self.comps[i]
+                spec = c.trappist_spec("max", self.part(base, i), None, self.part(ens, i), srcs_i[i], ())
+                for M, f in spec.items():
+                    obs.append((f, M in proj[i], (i, M)))
+            return obs, bad
+        raise ValueError(problem)
+
+    # ---- models
+    def rules_of_model(self, m, names=None):
+        out = []
+        for i, c in enumerate(self.comps):
+            out.append(c.rules_of_model(m, c.names).rstrip("\n"))
+        return "\n".join(out) + "\n"
+
+    def tables_of_model(self, m):
+        return [c.tables_of_model(m) for c in self.comps]
+
+    def pin(self, tables):
+        if tables and isinstance(tables[0][0], list):
+            out = []
+            for c, t in zip(self.comps, tables):
+                out += c.pin(t)
+            return out
+        # global tables (from a parsed bnet): project on the components
+        out = []
+        idx = {x: k for k, x in enumerate(self.states)}
+        for v in range(self.n):
+            i, vl = self.comp_of[v]
+            c = self.comps[i]
+            for xl in c.states:
+                x = [0] * self.n
+                for d, b in enumerate(xl):
+                    x[self.off[i] + d] = b
+                out.append(c.F[vl][xl] == bool(tables[v][idx[tuple(x)]]))
+        return out
+
+
 def family(name):
     """Named network families of DESIGN.md §5 -> SymNet"""
     if name == "U1":
@@ -432,4 +685,40 @@ def family(name):
         return SymNet(4, wiring={0: (0, 1), 1: (0, 1), 2: (1, 2, 3), 3: (2, 3)})
     if name == "R4":       # ring with self-loops: each depends on itself and predecessor
         return SymNet(4, wiring={0: (0, 3), 1: (1, 0), 2: (2, 1), 3: (3, 2)})
+    if name.startswith("P:"):
+        # product of named component families, e.g. P:U3+SW2 ; component tags keep the bits apart
+        comps = []
+        for k, part in enumerate(name[2:].split("+")):
+            comps.append(component(part, f"F{k}"))
+        return ProductNet(comps)
+    raise KeyError(name)
+
+
+def component(name, tag):
+    if name == "U3":
+        return SymNet(3, tag=tag)
+    if name == "D3":
+        return SymNet(3, ignore_one=True, tag=tag)
+    if name == "U2":
+        return SymNet(2, tag=tag)
+    if name == "U1":
+        return SymNet(1, tag=tag)
+    if name == "MAA3":
+        # 3-variable component constrained (by the solver) to have a motif-avoidant attractor
+        from . import specs
+        c = SymNet(3, tag=tag)
+        c.family_constraints.append(specs.has_motif_avoidant(c))
+        c.family_constraints += c.take_pending_defs()
+        return c
+    if name == "SW2":
+        # 2-variable component with at least two minimal trap spaces (a switch)
+        from . import specs
+        c = SymNet(2, tag=tag)
+        mts = [specs.is_mintrap(c, M) for M in c.subspaces]
+        c.family_constraints.append(z3.PbGe([(f, 1) for f in mts], 2))
+        return c
+    if name == "SRC1":
+        c = SymNet(1, tag=tag)
+        c.family_constraints.append(c.is_source(0, (None,)))
+        return c
     raise KeyError(name)
